@@ -8,7 +8,7 @@
    guarantees about references, [pre] the property's own precondition, the [g_*] guards are the
    complements of the regions refuted below (DESIGN §5 keys). *)
 From Coq Require Import String Ascii List ZArith Bool Arith.
-From BP Require Import EmitBase EmitNames Emit EmitSpec EmitCheck EmitProofs EmitDbu EmitDbuMain EmitDbuPy EmitWitness.
+From BP Require Import EmitBase EmitNames Emit EmitSpec EmitCheck EmitProofs EmitDbu EmitDbuMain EmitDbuPy EmitStr EmitUnique EmitWitness.
 From BPGen Require Import GenC10.
 Import ListNotations.
 Open Scope string_scope.
@@ -79,6 +79,20 @@ Theorem C10_py_defaults_exist_refuted :
   render w_empty_enum 0 TgPy [] = None /\ py_enums_nonempty w_empty_enum_unused 0 = false.
 Proof. vm_compute. repeat split; reflexivity. Qed.
 Print Assumptions C10_py_defaults_exist_refuted.
+
+(* ---- no two generated declarations share a name: C translation unit in standard mode
+   (header ++ source): defining declarations (macros, struct tags, typedefs, function
+   definitions - internal helper functions included) are pairwise distinct per C name space,
+   and so are the prototypes.  PARTIAL in scope: proved for the standard-mode C output; for the
+   -O outputs, Python and Go the same check ([unique_b]) is evaluated on every generated schema
+   (tie T2) but not proved for all schemas. ---- *)
+Theorem C10_names_unique_partial :
+  forall (s : schema) (i : nat) (flt : list string),
+    wf s = true -> i < length s -> pre LC s i = true ->
+    g_helper s i = true -> g_derived LC s i = true ->
+    unique_b (decls_of (render_items s i TgH flt ++ render_items s i TgC flt)) = true.
+Proof. exact names_unique_C. Qed.
+Print Assumptions C10_names_unique_partial.
 
 (* ---- further refuted regions (each witness is inside [wf] and [pre] for all languages) ---- *)
 
